@@ -128,7 +128,14 @@ func VerifH_C03_events() {
 		}
 	}
 	if scheduledAfter && rebase && !hasNewNAF {
-		vz.Assert(in1, "C03/created-or-changed-is-scheduled")
+		// (an expression with no occurrence left has nothing to be scheduled for)
+		ended := newExpr.Ended()
+		if !usesNew {
+			for _, e := range v.exprs {
+				ended = vz.Or(ended, e.Ended())
+			}
+		}
+		vz.Assert(vz.Or(in1, ended), "C03/created-or-changed-is-scheduled")
 		if in1 {
 			vz.Assert(time.Unix(int64(p1), 0).After(nowF), "C03/nothing-back-dated-before-the-change")
 			vz.Assert(len(env.rec.enq) == before, "C03/no-fire-in-the-flush-tick")
